@@ -22,7 +22,11 @@ class Token(AbsVal):
 
     def get_attr(self, it, name):
         if self.typ == "object" and not name.startswith("__"):
-            return Token(f"{self.name}.{name}")
+            if self.log is not None:
+                self.log.append(("use", self.name, name))
+            t = Token(f"{self.name}.{name}")
+            t.log = self.log
+            return t
         return NotImplemented
 
     def __repr__(self):
@@ -199,15 +203,64 @@ def library_argument_flow(P: Program):
     return probs, len(res)
 
 
+def init_block_middleware(it, bm):
+    """An instance of the (abstract) BlockMiddleware initialised by its own __init__, in-place and parallel-capable."""
+    from ..absint import AFunc
+    mw = AObj(bm)
+    init = bm.find_method("__init__")
+    if init is not None:
+        names = [a.arg for a in init.node.args.args[1:] + init.node.args.kwonlyargs]
+        kw = {n: True for n in names if n in ("allow_inplace_modification", "allow_parallel_execution")}
+        it.call_function(AFunc(init, init.node, init.module, self_val=mw, cls=init.cls), [], kw)
+    return mw
+
+
+def auto_format_flow(P: Program):
+    """write_string(library, format with value_column='auto', prepend_middleware=[probe]): what the writer aligns is the library the
+    stack produced - write_string itself must not look into the library it was given.  Returns (problems, paths)."""
+    fn = P.func("entrypoint", "write_string")
+
+    def run1(ctx):
+        log = []
+        it = driver_interp(P, ctx, "entrypoint", make_intrinsics(P, log), Hooks(log))
+        fmt = new_obj(it, P, "writer", "BibtexFormat")
+        it.set_attr(fmt, "value_column", "auto")
+        lib = Token("input-library")
+        lib.log = log
+        try:
+            call_func(it, fn, lib, bibtex_format=fmt, prepend_middleware=AList([Probe("u1", log)]))
+            return ("return", log)
+        except Raised as r:
+            return ("raise", r.cls_name())
+        except (Unsupported, LoopBound) as u:
+            return ("unsupported", str(u))
+    probs = []
+    res = explore(run1, 50)
+    for ctx, (kind, log) in res:
+        if kind == "unsupported":
+            raise AnalysisError(f"analyser cannot follow write_string: {log}")
+        if kind == "raise":
+            probs.append(f"raises {log}")
+            continue
+        uses = [e for e in log if e[0] == "use" and e[1].startswith("input-library")]
+        if uses:
+            probs.append(f"write_string inspects the library it was given (.{uses[0][2]}) before the unparse stack has run: the 'auto' column is "
+                         f"then computed from blocks that are not the ones written")
+    return probs, len(res)
+
+
 def run(P: Program, rep: Report):
     rep.not_decided += ["codec behaviour of open()", "stacks longer than three middlewares (the loops are uniform in the length)"]
     ep = P.module("entrypoint")
-    fns = {n: P.func("entrypoint", n) for n in ("parse_string", "parse_file", "write_string", "write_file", "_build_parse_stack", "_build_unparse_stack")}
+    fns = {n: P.func("entrypoint", n) for n in ("parse_string", "parse_file", "write_string", "write_file")}
+
+    cur_it = [None]
 
     def scenario(fname, build_args, label, rule, judge, max_paths=300):
         def run1(ctx):
             log = []
             it = driver_interp(P, ctx, "entrypoint", make_intrinsics(P, log), Hooks(log))
+            cur_it[0] = it
             args, kwargs, extra = build_args(log)
             try:
                 out = call_func(it, fns[fname], *args, **kwargs)
@@ -256,9 +309,17 @@ def run(P: Program, rep: Report):
     DEF_PARSE = ["ResolveStringReferencesMiddleware", "RemoveEnclosingMiddleware"]
     DEF_UNPARSE = ["AddEnclosingMiddleware"]
 
+    def real_mw(qual):
+        """An instance of a shipped middleware class (its transform is summarised by the logging intrinsic)."""
+        mod, cname = qual.rsplit(".", 1)
+        o = AObj(P.cls(mod, cname))
+        o.attrs["_allow_inplace_modification"] = True
+        o.attrs["_allow_parallel_execution"] = True
+        return o
+
     def ps_args(stack=None, append=None, gen=False, library=None):
         def b(log):
-            mk = lambda names: [Probe(n, log) for n in names]
+            mk = lambda names: [real_mw(n[5:]) if n.startswith("real:") else Probe(n, log) for n in names]
             kw = {}
             if stack is not None:
                 kw["parse_stack"] = OneShot(mk(stack)) if gen else AList(mk(stack))
@@ -294,6 +355,11 @@ def run(P: Program, rep: Report):
     scenario("parse_string", ps_args(stack=["p1", "p2", "p3"]), "given-stack", "C20.R2", judge_parse(["p1", "p2", "p3"]))
     scenario("parse_string", ps_args(append=["p1", "p2"]), "append", "C20.R2", judge_parse(DEF_PARSE + ["p1", "p2"]))
     scenario("parse_string", ps_args(append=[]), "append-empty", "C20.R2", judge_parse(DEF_PARSE))
+    # an addition of a type that is already in the default stack is still an addition (a warning at most)
+    scenario("parse_string", ps_args(append=["p1", "real:middlewares.enclosing.RemoveEnclosingMiddleware"]), "append-default-type", "C20.R2",
+             judge_parse(DEF_PARSE + ["p1", "RemoveEnclosingMiddleware"]))
+    scenario("parse_string", ps_args(append=["real:middlewares.interpolate.ResolveStringReferencesMiddleware"]), "append-default-type-2", "C20.R2",
+             judge_parse(DEF_PARSE + ["ResolveStringReferencesMiddleware"]))
     scenario("parse_string", ps_args(stack=["p1"], library=True), "library-arg", "C20.R3", judge_parse(["p1"], True))
     scenario("parse_string", ps_args(stack=["p1", "p2"], gen=True), "generator-stack", "C20.R4", judge_parse(["p1", "p2"]))
     scenario("parse_string", ps_args(append=["p1", "p2"], gen=True), "generator-append", "C20.R4", judge_parse(DEF_PARSE + ["p1", "p2"]))
@@ -318,23 +384,33 @@ def run(P: Program, rep: Report):
     scenario("parse_string", ps_args(), "default-order", "C20.R2", judge_default_flags)
 
     # ---------------------------------------------------------------- write_string
-    def ws_args(stack=None, prepend=None, gen=False, fmt=True):
+    def ws_args(stack=None, prepend=None, gen=False, fmt=True, auto_format=False):
         def b(log):
-            mk = lambda names: [Probe(n, log) for n in names]
+            mk = lambda names: [real_mw(n[5:]) if n.startswith("real:") else Probe(n, log) for n in names]
             kw = {}
             if stack is not None:
                 kw["unparse_stack"] = OneShot(mk(stack)) if gen else AList(mk(stack))
             if prepend is not None:
                 kw["prepend_middleware"] = OneShot(mk(prepend)) if gen else AList(mk(prepend))
             f = Token("given-format") if fmt else None
+            if auto_format:
+                # a real format object asking for the 'auto' column
+                f = new_obj(cur_it[0], P, "writer", "BibtexFormat")
+                cur_it[0].set_attr(f, "value_column", "auto")
             kw["bibtex_format"] = f
-            return [Token("input-library")], kw, f
+            lib = Token("input-library")
+            lib.log = log
+            return [lib], kw, f
         return b
 
     def judge_write(names, check_default=False):
         def j(kind, out, log, extra):
             if kind == "raise":
                 return f"raises {out.cls_name()}"
+            uses = [e for e in log if e[0] == "use" and e[1].startswith("input-library")]
+            if uses and names:
+                return (f"write_string itself inspects the library it was given (.{uses[0][2]}) although an unparse stack is applied first: "
+                        f"only the stack's result may determine the text (e.g. the 'auto' column)")
             start = next((e[2] for e in transforms(log)), None)
             ok, last, msg = chain_ok(log, start if start is not None else None, names)
             if names and getattr(start, "name", None) != "input-library":
@@ -367,6 +443,10 @@ def run(P: Program, rep: Report):
     scenario("write_string", ws_args(stack=[]), "empty-stack", "C20.R2", judge_write([]))
     scenario("write_string", ws_args(stack=["u1", "u2", "u3"]), "given-stack", "C20.R2", judge_write(["u1", "u2", "u3"]))
     scenario("write_string", ws_args(prepend=["u1", "u2"]), "prepend", "C20.R2", judge_write(["u1", "u2"] + DEF_UNPARSE, True))
+    scenario("write_string", ws_args(prepend=["u1"], auto_format=True), "prepend-auto-format", "C20.R3", judge_write(["u1"] + DEF_UNPARSE))
+    scenario("write_string", ws_args(stack=["u1", "u2"], auto_format=True), "stack-auto-format", "C20.R3", judge_write(["u1", "u2"]))
+    scenario("write_string", ws_args(prepend=["real:middlewares.enclosing.AddEnclosingMiddleware", "u1"]), "prepend-default-type", "C20.R2",
+             judge_write(["AddEnclosingMiddleware", "u1"] + DEF_UNPARSE))
     scenario("write_string", ws_args(stack=["u1", "u2"], gen=True), "generator-stack", "C20.R4", judge_write(["u1", "u2"]))
     scenario("write_string", ws_args(prepend=["u1", "u2"], gen=True), "generator-prepend", "C20.R4", judge_write(["u1", "u2"] + DEF_UNPARSE))
     scenario("write_string", ws_args(stack=["u1"], prepend=["u2"]), "both", "C20.R2", judge_both)
@@ -492,6 +572,9 @@ def run(P: Program, rep: Report):
         ("str", lambda b: "ab", "TypeError"),
         ("list-with-nonblock", lambda b: AList([b[3], 7]), "TypeError"),
         ("generator", lambda b: OneShot([b[3]]), "TypeError"),
+        ("list-with-none", lambda b: AList([b[3], None]), "TypeError"),
+        ("list-of-none", lambda b: AList([None]), "TypeError"),
+        ("tuple-none-first", lambda b: (None, b[3]), "TypeError"),
         ("failed-block-removed", lambda b: None, lambda b: []),
         ("failed-block-replaced", lambda b: AList([b[3], b[4]]), lambda b: [b[3], b[4]]),
     ]
@@ -508,8 +591,7 @@ def run(P: Program, rep: Report):
             blocks.append(failed)
             lib = new_obj(it, P, "library", "Library")
             call(it, lib, "add", AList(blocks[:3] + [failed]))
-            mw = AObj(bm)
-            mw.attrs["_allow_inplace_modification"] = True
+            mw = init_block_middleware(it, bm)
             calls = []
 
             def tb(it_, fn, args, kwargs, node):
@@ -542,6 +624,42 @@ def run(P: Program, rep: Report):
             if len(calls) != 4 or any(a is not b for a, b in zip(calls, blocks[:3] + [blocks[6]])):
                 probs.append("transform_block is not called once per block (failed blocks included) in order")
         rep.check(not probs, "C20.R6", f"block-protocol:{label}", bm.methods["transform"].loc, probs[0] if probs else "")
+
+    from . import common as _cm
+    _cm.default_stacks_are_fresh(P, rep, "C20.R2")
+
+    rep.rule("C20.R7", "every block, whatever the size of the library: BlockMiddleware.transform hands each block of the library to "
+                       "transform_block exactly once and in order - also on the far side of a size threshold (a seven-block library stands for "
+                       "one of any size: comparisons of its length with a large constant are explored both ways; worker pools are modelled sequentially)")
+
+    def run7(ctx):
+        it = driver_interp(P, ctx, "middlewares.middleware")
+        it.size_abstraction = True
+        mkb = lambda cls, *a, **k: new_obj(it, P, "model", cls, *a, **k)
+        blocks = [mkb("Entry", entry_type="a", key=f"k{i}", fields=AList([])) for i in range(3)] + [mkb("String", key="s", value="v"), mkb("Preamble", value="p"),
+                                                                                                  mkb("ExplicitComment", comment="c"), mkb("ImplicitComment", comment="i")]
+        lib = new_obj(it, P, "library", "Library")
+        call(it, lib, "add", AList(blocks))
+        mw = init_block_middleware(it, bm)
+        calls = []
+
+        def tb(it_, fn, args, kwargs, node):
+            calls.append(args[0])
+            return args[0]
+        it.intr[bm.methods["transform_block"].qualname] = tb
+        try:
+            out = call(it, mw, "transform", lib)
+        except Raised as r:
+            return ("raise", r.cls_name(), None, None)
+        except (Unsupported, LoopBound) as u:
+            raise AnalysisError(f"C20.R7: analyser cannot follow BlockMiddleware.transform: {u}")
+        got = it.get_attr(out, "blocks") if isinstance(out, AObj) else None
+        gl = got.items if isinstance(got, AList) else None
+        return ("return", [blocks.index(b) if b in blocks else -1 for b in calls], [blocks.index(b) if b in blocks else -1 for b in (gl or [])], ctx.assumed[-2:])
+    for ctx, (kind, calls, outb, assumed) in explore(run7, 200):
+        ok = kind == "return" and calls == list(range(7)) and outb == list(range(7))
+        rep.check(ok, "C20.R7", f"all-blocks:{'/'.join(a.split(' = ')[-1] for a in (assumed or []))}", bm.methods["transform"].loc,
+                  f"of 7 blocks, transform_block was called for {calls!r} and the result holds {outb!r} ({kind}; assumptions {assumed})")
 
     rep.rule("C20.R9", "no unsafe memoisation in the modules this property rests on: a function decorated with lru_cache / cache / "
                       "cached_property neither takes nor returns a mutable object (else later calls see stale or shared results)")
